@@ -987,7 +987,15 @@ class BaseImage(metaclass=ImageMeta):
 
         if not method:
             if cls._render_methods:
-                cls._render_method = cls._default_render_method
+                if "_default_render_method" in vars(cls):
+                    # The class that defines the render methods has no parent
+                    # style class to follow
+                    cls._render_method = cls._default_render_method
+                else:
+                    try:
+                        del cls._render_method
+                    except AttributeError:
+                        pass
         else:
             cls._render_method = method
 
